@@ -331,6 +331,17 @@ func TestC11Big(t *testing.T) {
 		if len(nw) > 10*MiB {
 			nw = nw[:10*MiB]
 		}
+		if rapid.IntRange(0, 3).Draw(rt, "unchangedfile") == 0 && bs >= 4*KiB {
+			// new content identical to an old file whose block count sits around the point where the
+			// differ's window wraps (4 MiB + 2 blocks): matches consume the buffer exactly
+			nblocks := 4*MiB/bs + rapid.IntRange(-1, 4).Draw(rt, "wrapblocks")
+			tailLen := rapid.SampledFrom([]int{0, 0, 1, bs - 1}).Draw(rt, "wraptail")
+			data := Bytes(rapid.Uint64().Draw(rt, "wrapseed"), nblocks*bs+tailLen)
+			c.Old = [][]byte{data}
+			nw = data
+			nold = 1
+			Ev.Probe("unchanged_file_around_window_wrap")
+		}
 		c.New = nw
 		c.Preferred = int64(rapid.IntRange(-1, nold-1).Draw(rt, "preferred"))
 		sl := [][2]uint64{{0, 0}}
